@@ -92,7 +92,7 @@ func c02(c *wk.Ctx) {
 	c.Count("definitions", int64(len(defs)))
 	costs := allSchema.ComputeCosts()
 	idx := 0
-	perDef := c.Pick(16, 400)
+	perDef := c.Pick(16, 2500)
 	boundary := []int{0, 1, 2, 3, 4, 5, 252, 253, 254, 255, 256, 257, 65535, 65536}
 	for di, d := range defs {
 		if HandCodec[d.Name] {
